@@ -1,5 +1,413 @@
 package main
 
-import "verifharness/hv"
+// Black-box part: two real muxers over the scheduling in-memory MsgConn pair.
+//  (1) concurrent creation: goroutines on both sides create reliable and unreliable tubes at the same time and
+//      exchange tube-specific data in both directions; oracle: identifiers of simultaneously live tubes of one
+//      kind are distinct and have the creator's parity; every created tube is offered to the peer's Accept
+//      exactly once with the creator's type and reliability; each reader gets exactly what was written on ITS
+//      tube (reliable: the byte stream; unreliable: whole messages that were written on it).
+//  (2) identifier reuse with a datagram of the predecessor held back by the network and released after the
+//      successor took the identifier (the history named in the property): reliable data frame, and REQ frame.
 
-func genNet(r *hv.Rand) {}
+import (
+	"bytes"
+	"fmt"
+	"io"
+	"sort"
+	"sync"
+	"time"
+
+	"hop.computer/hop/tubes"
+	"verifharness/hv"
+	hx "verifharness/hvxtubes"
+)
+
+var emitMu sync.Mutex
+
+func safeEmit(c hv.Case) {
+	emitMu.Lock()
+	hv.Emit(c)
+	emitMu.Unlock()
+}
+
+type created struct {
+	side  int // 0 client, 1 server
+	rel   bool
+	id    byte
+	ty    byte
+	data  []byte   // reliable: stream written by the creator
+	msgs  [][]byte // unreliable: messages written by the creator
+	reply []byte   // what the acceptor writes back (reliable)
+}
+
+func tubeData(side int, rel bool, id byte, ty byte, n int) []byte {
+	r := hv.NewRand(uint64(side)<<40 | uint64(id)<<16 | uint64(ty)<<8 | 1)
+	b := r.Bytes(n)
+	tag := []byte(fmt.Sprintf("<side%d rel%v id%d type%d>", side, rel, id, ty))
+	copy(b, tag)
+	return b
+}
+
+func runConcurrent(seed uint64, nEach int, pol func(*hv.Rand) hx.Policy) {
+	a, b := hx.NewPair()
+	mux := []*tubes.Muxer{tubes.Client(a, &tubes.Config{Log: quietLog()}), tubes.Server(b, &tubes.Config{Log: quietLog()})}
+	r := hv.NewRand(seed)
+	if pol != nil {
+		a.Out().SetPolicy(pol(hv.NewRand(r.U64())))
+		b.Out().SetPolicy(pol(hv.NewRand(r.U64())))
+	}
+	var mu sync.Mutex
+	reg := map[string]*created{} // key: creator side / rel / id
+	key := func(side int, rel bool, id byte) string { return fmt.Sprintf("%d/%v/%d", side, rel, id) }
+	var fails []string
+	var sigs []string
+	fail := func(sig, w string) {
+		mu.Lock()
+		fails = append(fails, w)
+		sigs = append(sigs, sig)
+		mu.Unlock()
+	}
+	accepted := map[string]int{}
+	var wg sync.WaitGroup
+	deadline := time.Now().Add(time.Duration(hv.Scale(30, 90)) * time.Second)
+
+	// acceptors
+	stopAccept := make(chan struct{})
+	for side := 0; side < 2; side++ {
+		go func(side int) {
+			for {
+				t, err := mux[side].Accept()
+				if err != nil {
+					return
+				}
+				creator := 1 - side
+				k := key(creator, t.IsReliable(), t.GetID())
+				mu.Lock()
+				accepted[k]++
+				cnt := accepted[k]
+				c := reg[k]
+				mu.Unlock()
+				if t.GetID()%2 != byte(1-creator) {
+					fail("C09:accepted-id-has-wrong-parity", fmt.Sprintf("side %d accepted tube id %d, the peer (parity %d) cannot have created it", side, t.GetID(), 1-creator))
+				}
+				if cnt > 1 {
+					fail("C09:tube-offered-twice-or-unrequested", fmt.Sprintf("tube %s was offered to Accept %d times", k, cnt))
+					continue
+				}
+				wg.Add(1)
+				go func() {
+					defer wg.Done()
+					// the creator registers before it writes; wait for the registration
+					for i := 0; c == nil && i < 2000; i++ {
+						time.Sleep(time.Millisecond)
+						mu.Lock()
+						c = reg[k]
+						mu.Unlock()
+					}
+					if c == nil {
+						fail("C09:tube-offered-twice-or-unrequested", fmt.Sprintf("Accept returned tube %s that nobody created", k))
+						return
+					}
+					if byte(t.Type()) != c.ty {
+						fail("C09:accepted-tube-differs-from-request", fmt.Sprintf("tube %s accepted with type %d, created with type %d", k, t.Type(), c.ty))
+					}
+					if t.IsReliable() {
+						got := readStream(t, len(c.data), deadline)
+						if !bytes.Equal(got, c.data) {
+							fail("C09:tube-reader-got-foreign-or-wrong-bytes", fmt.Sprintf("acceptor of %s read %d bytes starting % x, the creator wrote %d bytes starting % x", k, len(got), trunc(got), len(c.data), trunc(c.data)))
+						}
+						t.Write(c.reply)
+						t.Close()
+					} else {
+						u := t.(*tubes.Unreliable)
+						checkMsgs(u, c.msgs, k, deadline, fail)
+					}
+				}()
+				select {
+				case <-stopAccept:
+					return
+				default:
+				}
+			}
+		}(side)
+	}
+
+	// creators
+	liveMu := sync.Mutex{}
+	live := map[string]bool{}
+	for side := 0; side < 2; side++ {
+		for g := 0; g < nEach; g++ {
+			wg.Add(1)
+			go func(side, g int) {
+				defer wg.Done()
+				rr := hv.NewRand(seed*1000 + uint64(side*100+g))
+				rel := rr.Chance(60)
+				ty := byte(1 + rr.Intn(200))
+				var t tubes.Tube
+				var err error
+				if rel {
+					t, err = mux[side].CreateReliableTube(tubes.TubeType(ty))
+				} else {
+					t, err = mux[side].CreateUnreliableTube(tubes.TubeType(ty))
+				}
+				if err != nil {
+					fail("C09:create-fails-with-free-ids", fmt.Sprintf("side %d: Create(rel=%v) failed: %v", side, rel, err))
+					return
+				}
+				id := t.GetID()
+				k := key(side, rel, id)
+				if id%2 != byte(1-side) {
+					fail("C09:created-id-has-wrong-parity", fmt.Sprintf("side %d (parity %d) created tube id %d", side, 1-side, id))
+				}
+				liveMu.Lock()
+				if live[k] {
+					fail("C09:created-id-clashes-with-live-tube", fmt.Sprintf("two simultaneously live tubes %s", k))
+				}
+				live[k] = true
+				liveMu.Unlock()
+				c := &created{side: side, rel: rel, id: id, ty: ty}
+				if rel {
+					c.data = tubeData(side, rel, id, ty, 200+rr.Intn(30000))
+					c.reply = tubeData(side+2, rel, id, ty, 100+rr.Intn(5000))
+				} else {
+					for i := 0; i < 6; i++ {
+						c.msgs = append(c.msgs, tubeData(side, rel, id, byte(i), 40+rr.Intn(900)))
+					}
+				}
+				mu.Lock()
+				reg[k] = c
+				mu.Unlock()
+				if rel {
+					rt := t.(*tubes.Reliable)
+					rt.Write(c.data)
+					got := readStream(rt, len(c.reply), deadline)
+					if !bytes.Equal(got, c.reply) {
+						fail("C09:tube-reader-got-foreign-or-wrong-bytes", fmt.Sprintf("creator of %s read %d reply bytes starting % x, the acceptor wrote %d bytes starting % x", k, len(got), trunc(got), len(c.reply), trunc(c.reply)))
+					}
+					rt.Close()
+				} else {
+					u := t.(*tubes.Unreliable)
+					for round := 0; round < 3; round++ { // unreliable: repeat, the network may drop
+						for _, m := range c.msgs {
+							u.WriteMsgUDP(m, nil, nil)
+						}
+						time.Sleep(30 * time.Millisecond)
+					}
+				}
+				// the tube stays live until the end of the run: identifiers are not reused in this scenario
+			}(side, g)
+		}
+	}
+	done := make(chan struct{})
+	go func() { wg.Wait(); close(done) }()
+	select {
+	case <-done:
+	case <-time.After(time.Until(deadline) + 5*time.Second):
+		fail("C09:concurrent-run-did-not-finish", "tube creation / transfer did not finish in time")
+	}
+	// every created tube must have been offered exactly once
+	time.Sleep(50 * time.Millisecond)
+	mu.Lock()
+	var keys []string
+	for k := range reg {
+		keys = append(keys, k)
+	}
+	sort.Strings(keys)
+	for _, k := range keys {
+		if accepted[k] != 1 {
+			fails = append(fails, fmt.Sprintf("tube %s was created by its opener but offered to the peer's Accept %d times", k, accepted[k]))
+			sigs = append(sigs, "C09:remote-tube-not-offered")
+		}
+	}
+	nCreated := len(reg)
+	ok := len(fails) == 0
+	what, sig := "", ""
+	if !ok {
+		what, sig = fails[0], sigs[0]
+	}
+	mu.Unlock()
+	close(stopAccept)
+	go mux[0].Stop()
+	go mux[1].Stop()
+	faulty := "clean network"
+	if pol != nil {
+		faulty = "duplicating/reordering network"
+	}
+	safeEmit(hv.Case{Class: "net-concurrent-create", Desc: fmt.Sprintf("net concurrent seed=%d creators-per-side=%d %s: %d tubes created", seed, nEach, faulty, nCreated),
+		Spec: ok, Sig: sig, What: what, NT: true})
+}
+
+func readStream(t io.Reader, want int, deadline time.Time) []byte {
+	var got []byte
+	buf := make([]byte, 1<<16)
+	type dl interface{ SetReadDeadline(time.Time) error }
+	for len(got) < want && time.Now().Before(deadline) {
+		if d, ok := t.(dl); ok {
+			d.SetReadDeadline(time.Now().Add(300 * time.Millisecond))
+		}
+		n, err := t.Read(buf)
+		got = append(got, buf[:n]...)
+		if err == io.EOF {
+			break
+		}
+	}
+	if d, ok := t.(dl); ok {
+		d.SetReadDeadline(time.Time{})
+	}
+	return got
+}
+
+func checkMsgs(u *tubes.Unreliable, written [][]byte, k string, deadline time.Time, fail func(string, string)) {
+	buf := make([]byte, 1<<17)
+	seen := 0
+	for seen < len(written)*2 && time.Now().Before(deadline) {
+		u.SetReadDeadline(time.Now().Add(400 * time.Millisecond))
+		n, _, _, _, err := u.ReadMsgUDP(buf, nil)
+		if err != nil {
+			if seen >= len(written) {
+				return
+			}
+			continue
+		}
+		m := buf[:n]
+		found := false
+		for _, w := range written {
+			if bytes.Equal(w, m) {
+				found = true
+			}
+		}
+		if !found {
+			fail("C09:unreliable-message-not-as-written", fmt.Sprintf("reader of %s got a %d-byte message starting % x that was never written on this tube", k, n, trunc(m)))
+			return
+		}
+		seen++
+	}
+}
+
+// identifier reuse with a held-back datagram of the predecessor
+func runReuse(kind string) {
+	a, b := hx.NewPair()
+	mc := tubes.Client(a, &tubes.Config{Log: quietLog()})
+	ms := tubes.Server(b, &tubes.Config{Log: quietLog()})
+	defer func() { go mc.Stop(); go ms.Stop() }()
+	held := false
+	var mu sync.Mutex
+	a.Out().SetPolicy(func(n int, t time.Duration, p []byte) hx.Fate {
+		mu.Lock()
+		defer mu.Unlock()
+		if held || len(p) < 4 {
+			return hx.Fate{}
+		}
+		isREQ := p[1]&1 != 0
+		isData := p[1]&3 == 0 && (int(p[2])<<8|int(p[3])) > 0
+		if (kind == "data" && isData) || (kind == "req" && isREQ) {
+			held = true
+			return hx.Fate{Hold: true} // the first copy stays in the network; the retransmission gets through
+		}
+		return hx.Fate{}
+	})
+	ok, sig, what := true, "", ""
+	desc := "net id-reuse: client opens reliable tube, the network holds back the first copy of its " + kind + " frame, the tube is used and closed on both sides and reaped, (data: the client opens a new reliable tube, same id,) the held datagram is released"
+	emit := func() {
+		safeEmit(hv.Case{Class: "net-id-reuse-held-" + kind, Desc: desc, Spec: ok, Sig: sig, What: what, NT: true})
+	}
+	t1, err := mc.CreateReliableTube(5)
+	if err != nil {
+		return
+	}
+	old := []byte("OLD-INSTANCE: bytes written on the first tube with this identifier")
+	t1.Write(old)
+	s1t, err := ms.Accept()
+	if err != nil {
+		return
+	}
+	s1 := s1t.(*tubes.Reliable)
+	got := readStream(s1, len(old), time.Now().Add(10*time.Second))
+	if !bytes.Equal(got, old) {
+		ok, sig, what = false, "C09:tube-reader-got-foreign-or-wrong-bytes", "first tube did not deliver its own data"
+		emit()
+		return
+	}
+	id1 := t1.GetID()
+	t1.Close()
+	s1.Close()
+	t1.WaitForClose()
+	s1.WaitForClose()
+	// wait until both muxers have reaped the tube (the opener waits 4*RTT)
+	dl := time.Now().Add(10 * time.Second)
+	for (tubes.VerifMuxHas(mc, true, id1) || tubes.VerifMuxHas(ms, true, id1)) && time.Now().Before(dl) {
+		time.Sleep(time.Millisecond)
+	}
+	if len(a.Out().Held()) == 0 {
+		desc += " [nothing was held: scenario not reached]"
+		emit()
+		return
+	}
+	if kind == "req" {
+		// the delayed REQ of the closed tube arrives: no tube may be offered, the peer opened one tube and it was accepted
+		a.Out().Release()
+		time.Sleep(150 * time.Millisecond)
+		if t, okA := tubes.VerifMuxTryAccept(ms); okA {
+			ok, sig = false, "C09:stale-req-creates-ghost-tube"
+			what = fmt.Sprintf("the peer opened one tube (accepted, closed, reaped); when the delayed first copy of its REQ arrived, Accept offered another tube (rel=%v,id=%d,type=%d)", t.IsReliable(), t.GetID(), t.Type())
+		}
+		emit()
+		return
+	}
+	t2, err := mc.CreateReliableTube(6)
+	if err != nil || t2.GetID() != id1 {
+		desc += " [identifier not reused: scenario not reached]"
+		emit()
+		return
+	}
+	s2t, err := ms.Accept()
+	if err != nil {
+		return
+	}
+	s2 := s2t.(*tubes.Reliable)
+	t2.WaitForInit()
+	s2.WaitForInit()
+	a.Out().Release()
+	time.Sleep(50 * time.Millisecond)
+	if kind == "data" {
+		s2.SetReadDeadline(time.Now().Add(300 * time.Millisecond))
+		buf := make([]byte, 4096)
+		n, _ := s2.Read(buf)
+		if n > 0 {
+			ok, sig = false, "C09:stale-frame-accepted-after-id-reuse"
+			what = fmt.Sprintf("nothing was written on the second tube with id %d, yet its reader received %d bytes: %q (the delayed frame of the first tube)", id1, n, buf[:min(n, 40)])
+		}
+	}
+	emit()
+}
+
+func genNet(r *hv.Rand) {
+	dupReorder := func(rr *hv.Rand) hx.Policy {
+		var mu sync.Mutex
+		return func(n int, t time.Duration, p []byte) hx.Fate {
+			mu.Lock()
+			defer mu.Unlock()
+			f := hx.Fate{}
+			if rr.Chance(15) {
+				f.Dup = 1
+			}
+			f.Delay = time.Duration(rr.Intn(3000)) * time.Microsecond
+			return f
+		}
+	}
+	var wg sync.WaitGroup
+	for i := 0; i < hv.Scale(3, 12); i++ {
+		seed := r.U64() % 100000
+		n := hv.Pick(r, []int{4, 12, 30})
+		var pol func(*hv.Rand) hx.Policy
+		if i%2 == 1 {
+			pol = dupReorder
+		}
+		wg.Add(1)
+		go func() { defer wg.Done(); runConcurrent(seed, n, pol) }()
+	}
+	wg.Add(2)
+	go func() { defer wg.Done(); runReuse("data") }()
+	go func() { defer wg.Done(); runReuse("req") }()
+	wg.Wait()
+}
